@@ -506,6 +506,7 @@ func (v *FV) callMods(fr *Frame, cc *ssa.CallCommon, mod map[string]bool, all *b
 	} else if _, isParam := cc.Value.(*ssa.Parameter); isParam {
 		mod["CALLS"] = true
 		mod["ARGNN"] = true
+		mod["ARGV"] = true
 	}
 	if b, ok := cc.Value.(*ssa.Builtin); ok {
 		switch b.Name() {
